@@ -68,6 +68,8 @@ int gd_alter_protection(DIRFILE *D, int protection_level, int fragment_index)
     D->fragment[fragment_index].modified = 1;
   }
 
+  D->flags &= ~GD_HAVE_VERSION;
+
   dreturn("%i", 0);
   return 0;
 }
